@@ -11,7 +11,7 @@ ENC = ["pyrtma.client:Client.read_message", "pyrtma.client:Client._read_message"
        "pyrtma.message:get_msg_cls", "pyrtma.client:requires_connection"]
 ASSUMPTIONS = [
     "frames reaching a client were written by the manager: declared payload size 0..65535",
-    "MSG_WAITALL: a read returns fewer bytes than asked only when the peer closed the connection",
+    "MSG_WAITALL: a read returns fewer bytes than asked only when the peer closed the connection; a read WITHOUT that flag returns as soon as some bytes are there (the peer's bytes arrive one at a time in the model), so code that relies on a full read without asking for it is seen",
     "when the connection ends inside the payload of an undecodable frame the decode error may be reported for that frame; the next call must report ConnectionLost",
     "payload bytes are opaque: 'byte-identical' is checked as 'read exactly num_data_bytes bytes starting right after the header into the returned data object, header fields as sent'",
 ]
